@@ -27,7 +27,7 @@ REAL = ["all six gateway classes through their public constructors", "mysensors.
 STUBS = ["serial/socket factories, asyncio connection factories, MQTT broker, disk, clock, thread scheduling"]
 ASSUMPTIONS = ["this is a statement over configurations; simulation only provides the instrument that observes options taking effect (DESIGN.md C18)",
                "bare integer version 2 is not of the form major.minor[.patch]: its floor is not checked"]
-REQUIRED_PROBES = ["panel_frames_checked", "reconnect_spacing_checked", "node_version_checked"]
+REQUIRED_PROBES = ["panel_frames_checked", "reconnect_spacing_checked", "node_version_checked", "persistence_effect_checked", "presentation_request_checked"]
 
 PANEL = [  # (frame after node 1 / child 1 are presented, description)
     "1;1;1;0;40;ff00aa", "1;1;1;0;47;x", "1;255;3;0;22;5", "1;255;3;0;32;5", "1;255;3;0;7;", "1;1;1;0;22;1", "1;1;1;0;22;Min",
@@ -89,6 +89,8 @@ def gen(rng, tier, index):
             opts["out_prefix"] = rng.choice(["mygateway1-in", "c/d", "y"])
         if rng.random() < 0.5:
             opts["retain"] = rng.choice([True, False])
+    if rng.random() < 0.35:
+        opts["event_callback"] = None  # the documented default: no callback
     return {"cfg": {"flavour": flavour, "opts": opts, "readme": False, "node_version": version_strings(rng),
                     "connect_plan": rng.choice([["ok"], ["fail", "ok"], ["fail", "fail", "ok"], ["timeout", "ok"]])}}
 
@@ -180,8 +182,15 @@ def run(case):
             # ---- callback, persistence, prefixes ------------------------------------------------
             _send(world, broker, "1;255;0;0;17;" + str(cfg["node_version"] if _plausible(cfg["node_version"]) else "2.0"))
             _send(world, broker, "1;1;0;0;3;light")
-            if not world.callbacks:
+            no_cb = "event_callback" in opts and opts["event_callback"] is None
+            if not world.callbacks and not no_cb:
                 violations.append(_vio("option-not-honoured", {"note": "event callback never fired"}, option="event_callback"))
+            if opts.get("persistence"):
+                # persistence must take effect in every option subset: let a periodic save pass, then change a
+                # known node only, stop, and load the file into a fresh gateway
+                world.advance(10.5)
+                _send(world, broker, "1;1;1;0;2;1")
+                _send(world, broker, "1;255;3;0;11;sketch-" + ("nocb" if no_cb else "cb"))
             if broker is not None:
                 _send(world, broker, "1;255;3;0;6;0")
                 pre_in, pre_out = opts.get("in_prefix", ""), opts.get("out_prefix", "")
@@ -204,6 +213,19 @@ def run(case):
                         violations.append(_vio("version-floor-wrong", {"version_string": repr(gw_version), "floor": floor, "frame": frame,
                                                                        "accepted": got, "want": want}, who="gateway", version=repr(gw_version)))
                         break
+            # ---- >= 2.0 behaviour follows the same floor: a message for an unknown node asks for a presentation
+            if check_floor and not violations:
+                mark = len(broker.published) if broker is not None else len(world.device.writes)
+                _send_force(world, broker, "199;1;1;0;0;5")
+                if broker is not None:
+                    asked = any(p[1].endswith("/199/255/3/0/19") for p in broker.published[mark:])
+                else:
+                    asked = any(w[4] == b"199;255;3;0;19;\n" for w in world.device.writes[mark:])
+                want_ask = floor in ("2.0", "2.1", "2.2")
+                probes["presentation_request_checked"] = 1
+                if asked != want_ask:
+                    violations.append(_vio("version-floor-wrong", {"version_string": repr(gw_version), "floor": floor, "presentation_request_sent": asked,
+                                                                   "want": want_ask}, who="gateway-behaviour", version=repr(gw_version)))
             # ---- version a node presents ---------------------------------------------------------------
             nver = cfg["node_version"]
             if check_floor and floor in ("2.0", "2.1", "2.2") and isinstance(nver, str) and _plausible(nver) and not violations:
@@ -233,6 +255,15 @@ def run(case):
                 others = [p for p in fs.files if p != path]
                 if fs.get(path) is None or others:
                     violations.append(_vio("option-not-honoured", {"want_file": path, "files": sorted(fs.files)}, option="persistence_file"))
+                else:
+                    held = W.projection(gateway.sensors)
+                    fresh = world.build()
+                    fresh.tasks.persistence.safe_load_sensors()
+                    if W.projection(fresh.sensors) != held:
+                        violations.append(_vio("option-not-honoured", {"note": "state held at stop() is not what the persistence file restores",
+                                                                       "callback": "none" if no_cb else "given"},
+                                               option="persistence", callback="none" if no_cb else "given"))
+                    probes["persistence_effect_checked"] = 1
             elif fs.files:
                 violations.append(_vio("option-not-honoured", {"note": "file written without persistence", "files": sorted(fs.files)},
                                        option="persistence"))
